@@ -13,13 +13,13 @@ import (
 // Write is one instruction that writes a package-level variable of the module or the
 // memory it refers to.
 type Write struct {
-	G      ssa.Value // *ssa.Global, or *ssa.Parameter for caller-owned memory
-	Instr  ssa.Instruction
-	Fn     *ssa.Function
-	Kind   string // "store" (the variable itself) or "referent" (memory reached through it)
-	How    string
-	Test   bool // the writer lives in a _test.go file
-	Synth  bool // the writer is the synthetic package initialiser (variable declarations)
+	G        ssa.Value // *ssa.Global, or *ssa.Parameter for caller-owned memory
+	Instr    ssa.Instruction
+	Fn       *ssa.Function
+	Kind     string // "store" (the variable itself) or "referent" (memory reached through it)
+	How      string
+	Test     bool // the writer lives in a _test.go file
+	Synth    bool // the writer is the synthetic package initialiser (variable declarations)
 	UserInit bool // the writer is a user-written init() function
 }
 
@@ -467,7 +467,6 @@ func (ef *Effects) followCall(g ssa.Value, c ssa.CallInstruction, v ssa.Value, s
 	// unknown callee: it may write what it is given
 	addWrite(g, c, "referent", "passed to "+name+", which may modify it")
 }
-
 
 // followTable: memory reached through g was stored into an element of package-level table t;
 // every value loaded from an element of t may alias it.
